@@ -77,6 +77,18 @@ RULE = ("BFS part: state = directory tree (sorted (path, content) list); "
         "overwrite of a longer table with other columns}, plus read_args / "
         "post_reader cases, plus filesets with compress=False, "
         "decompress=False on the 4 compression suffixes (nc and csv). "
+        "Threads part (c11_threads.py): from the tree with one file in "
+        "every slot, every move / copy / delete of both alphabets that "
+        "selects two files (quick: both files for one new directory with "
+        "shared FileSet objects, raw moves also with per-worker copies, the "
+        "converting moves into the JSON fileset, every delete; thorough: "
+        "every selection incl. all four files) runs with max_workers=2 and "
+        "worker_type 'thread' (tasks share the FileSet objects) and 'process' "
+        "(typhon's default: pickled copies, shared file system) as REAL "
+        "threads under the cooperative scheduler of mc/threads.py - a "
+        "scheduling point at every line of a typhon source file - for every "
+        "schedule with <= 1 preemption (thorough 2 for two-file selections); "
+        "the tree afterwards must be the model's. "
         "evaluations = executed transitions + round "
         "trips; non-trivial = the operation touches (selects, creates or "
         "overwrites) a file while another "
@@ -86,7 +98,9 @@ RULE = ("BFS part: state = directory tree (sorted (path, content) list); "
 ASSUMPTIONS = [
     "pool work inside move/delete/collect runs on a synchronous executor "
     "(typhon.files.fileset.ThreadPoolExecutor/ProcessPoolExecutor rebound); "
-    "schedules are property C10's subject",
+    "schedules are property C10's subject; the interference of the workers "
+    "of ONE move/copy/delete is explored in the threads part (line-level "
+    "interleavings within a preemption bound, <= 4 files, 2 workers)",
     "a move without convert to a template with a compression suffix or to a "
     "fileset with another handler is a plain rename and not enumerated; "
     "every selection of a move maps distinct files to distinct target names",
